@@ -8,7 +8,12 @@ from typing import Any, ClassVar, Sequence
 from tree_sitter import Node
 
 from nix_manipulator.exceptions import NixSyntaxError
-from nix_manipulator.expressions.binding import Binding, _split_attrpath
+from nix_manipulator.expressions.binding import (
+    Binding,
+    _split_attrpath,
+    attr_name_key,
+    same_attr_name,
+)
 from nix_manipulator.expressions.binding_parser import parse_binding_sequence
 from nix_manipulator.expressions.expression import NixExpression, TypedExpression
 from nix_manipulator.expressions.identifier import Identifier
@@ -44,7 +49,8 @@ def _merge_attrpath_sets(target: "AttributeSet", incoming: "AttributeSet") -> No
                 (
                     value
                     for value in target.values
-                    if isinstance(value, Binding) and value.name == item.name
+                    if isinstance(value, Binding)
+                    and same_attr_name(value.name, item.name)
                 ),
                 None,
             )
@@ -84,10 +90,11 @@ def _merge_attrpath_bindings(
         if not isinstance(item, Binding):
             merged.append(item)
             continue
-        existing = first_binding_by_name.get(item.name)
+        name_key = attr_name_key(item.name)
+        existing = first_binding_by_name.get(name_key)
         if existing is None:
             merged.append(item)
-            first_binding_by_name[item.name] = item
+            first_binding_by_name[name_key] = item
             continue
         if existing.nested or item.nested:
             if existing.nested and item.nested:
@@ -435,7 +442,7 @@ class AttributeSet(TypedExpression):
     def __getitem__(self, key: str):
         """Allow dict-style access for manipulating bindings by name."""
         for binding in self.values:
-            if isinstance(binding, Binding) and binding.name == key:
+            if isinstance(binding, Binding) and same_attr_name(binding.name, key):
                 value = binding.value
                 if isinstance(value, NixExpression):
                     attach_resolution_context(value, owner=self)
@@ -508,7 +515,7 @@ class AttributeSet(TypedExpression):
         if isinstance(value, NixExpression):
             clear_resolution_context(value)
         for binding in self.values:
-            if isinstance(binding, Binding) and binding.name == key:
+            if isinstance(binding, Binding) and same_attr_name(binding.name, key):
                 binding.value = value
                 return
         new_binding = Binding(name=key, value=value)
@@ -519,7 +526,7 @@ class AttributeSet(TypedExpression):
     def __delitem__(self, key: str):
         """Delete a binding by key and surface missing keys explicitly."""
         for i, binding in enumerate(self.values):
-            if isinstance(binding, Binding) and binding.name == key:
+            if isinstance(binding, Binding) and same_attr_name(binding.name, key):
                 del self.values[i]
                 if self.attrpath_order:
                     for index, item in enumerate(self.attrpath_order):
